@@ -116,6 +116,151 @@ func main() {
 	if *sub == "" {
 		ex.writeLocks(filepath.Join(*out, "Locks.lean"))
 		ex.writePins(filepath.Join(*out, "Pins.lean"))
+		ex.writeCas(filepath.Join(*out, "Cas.lean"))
+	}
+}
+
+// ---------------------------------------------------------------------------------------------
+// compare-and-swap sites on the collection map (C12)
+
+// casSite: one call `_.casColl(x, y)`.
+//   argIdent     the first argument is a plain identifier x
+//   defGetColl   x has exactly one definition in the function and it is `x := _.getColl()`
+//   defBefore    that definition precedes the call
+//   sameLoop     definition and call have the same innermost enclosing `for` (or none)
+//   copiesFromX  every `copyColl(...)` in the function mentions x and calls no getColl itself
+//                (true when the function has no copyColl)
+type casSite struct {
+	fn                                                    string
+	argIdent, defGetColl, defBefore, sameLoop, copiesFromX bool
+}
+
+func isGetCollCall(e ast.Expr) bool {
+	c, ok := e.(*ast.CallExpr)
+	if !ok || len(c.Args) != 0 {
+		return false
+	}
+	sel, ok := c.Fun.(*ast.SelectorExpr)
+	return ok && sel.Sel.Name == "getColl"
+}
+
+func (ex *extractor) casSites() []casSite {
+	var out []casSite
+	for q, fd := range ex.funcs {
+		if fd.Body == nil {
+			continue
+		}
+		// innermost enclosing for-statement of every node position
+		type span struct{ lo, hi token.Pos }
+		var loops []span
+		ast.Inspect(fd.Body, func(n ast.Node) bool {
+			switch l := n.(type) {
+			case *ast.ForStmt:
+				loops = append(loops, span{l.Pos(), l.End()})
+			case *ast.RangeStmt:
+				loops = append(loops, span{l.Pos(), l.End()})
+			}
+			return true
+		})
+		inner := func(p token.Pos) span {
+			best := span{}
+			for _, l := range loops {
+				if l.lo <= p && p < l.hi && (best.hi == 0 || l.hi-l.lo < best.hi-best.lo) {
+					best = l
+				}
+			}
+			return best
+		}
+		// definitions of identifiers: name -> (positions, rhs is getColl())
+		type def struct {
+			pos     token.Pos
+			getColl bool
+		}
+		defs := map[string][]def{}
+		var copies []*ast.CallExpr
+		var cass []*ast.CallExpr
+		ast.Inspect(fd.Body, func(n ast.Node) bool {
+			switch x := n.(type) {
+			case *ast.AssignStmt:
+				for i, l := range x.Lhs {
+					id, ok := l.(*ast.Ident)
+					if !ok {
+						continue
+					}
+					g := len(x.Lhs) == len(x.Rhs) && isGetCollCall(x.Rhs[i])
+					defs[id.Name] = append(defs[id.Name], def{x.Pos(), g})
+				}
+			case *ast.ValueSpec:
+				for i, id := range x.Names {
+					g := i < len(x.Values) && isGetCollCall(x.Values[i])
+					defs[id.Name] = append(defs[id.Name], def{x.Pos(), g})
+				}
+			case *ast.CallExpr:
+				switch f := x.Fun.(type) {
+				case *ast.SelectorExpr:
+					if f.Sel.Name == "casColl" {
+						cass = append(cass, x)
+					}
+				case *ast.Ident:
+					if f.Name == "copyColl" {
+						copies = append(copies, x)
+					}
+				}
+			}
+			return true
+		})
+		for _, c := range cass {
+			st := casSite{fn: q}
+			if len(c.Args) == 2 {
+				if id, ok := c.Args[0].(*ast.Ident); ok {
+					st.argIdent = true
+					ds := defs[id.Name]
+					if len(ds) == 1 && ds[0].getColl {
+						st.defGetColl = true
+						st.defBefore = ds[0].pos < c.Pos()
+						st.sameLoop = inner(ds[0].pos) == inner(c.Pos())
+					}
+					st.copiesFromX = true
+					for _, cp := range copies {
+						mentions, fresh := false, false
+						ast.Inspect(cp, func(n ast.Node) bool {
+							if i2, ok := n.(*ast.Ident); ok && i2.Name == id.Name {
+								mentions = true
+							}
+							if e, ok := n.(ast.Expr); ok && isGetCollCall(e) {
+								fresh = true
+							}
+							return true
+						})
+						if !mentions || fresh {
+							st.copiesFromX = false
+						}
+					}
+				}
+			}
+			out = append(out, st)
+		}
+	}
+	sort.Slice(out, func(i, j int) bool { return out[i].fn < out[j].fn })
+	return out
+}
+
+func (ex *extractor) writeCas(path string) {
+	var b strings.Builder
+	b.WriteString("/- GENERATED by /verif/harness/cmd/extract from /repo — do not edit. -/\nnamespace Gkv.Gen.Cas\n\n")
+	b.WriteString("/-- every call `_.casColl(x, y)`: (function, x is an identifier, x's only definition is `x := _.getColl()`,\n    it precedes the call, both lie in the same innermost loop, every copyColl in the function copies from x) -/\n")
+	b.WriteString("def sites : List (String × Bool × Bool × Bool × Bool × Bool) := [\n")
+	ss := ex.casSites()
+	for i, st := range ss {
+		sep := ","
+		if i == len(ss)-1 {
+			sep = ""
+		}
+		fmt.Fprintf(&b, "  (%q, %v, %v, %v, %v, %v)%s\n", st.fn, st.argIdent, st.defGetColl, st.defBefore, st.sameLoop, st.copiesFromX, sep)
+	}
+	b.WriteString("]\n\nend Gkv.Gen.Cas\n")
+	if err := os.WriteFile(path, []byte(b.String()), 0644); err != nil {
+		fail("%v", err)
 	}
 }
 
